@@ -213,6 +213,98 @@ theorem WF_appliedFlipped_of_anti {A : Interval α} (f : α → α) (hf : Antito
   cases A <;> simp only [appliedFlipped, WF] at *
   exact hf hA
 
+/-! #### the derived `PartialEq` / `PartialOrd` through the bounds -/
+section cmp
+attribute [local instance] Cmp.ofLinearOrder
+
+theorem beq_iff_eq (a b : Interval α) : a.beq b = true ↔ a = b := by
+  cases a <;> cases b <;> simp [beq]
+
+/-- `partial_cmp = Less` through the bounds: different, and the upper bound of `a` is at most the
+    lower bound of `b` (both present) -/
+theorem partialCmp_lt_iff_bounds (a b : Interval α) (ha : a.WF) (hb : b.WF) :
+    partialCmp a b = some .lt ↔ a ≠ b ∧ ∃ h l, a.right = some h ∧ b.left = some l ∧ h ≤ l := by
+  cases a <;> cases b <;> simp only [WF] at ha hb
+  case twoSided.twoSided p q r s =>
+    simp only [partialCmp, beq, left, right, ne_eq, Bool.and_eq_true, cmp_eq_iff, ge_iff',
+      twoSided.injEq, Option.some.injEq, exists_and_left, exists_eq_left']
+    by_cases he : p = r ∧ q = s
+    · simp [he]
+    · rw [if_neg he]
+      by_cases h1 : s ≤ p
+      · rw [if_pos h1]
+        refine ⟨fun h => (by cases h), fun ⟨_, hc⟩ => absurd ⟨by order, by order⟩ he⟩
+      · rw [if_neg h1]
+        by_cases h2 : q ≤ r <;> simp [h2, he]
+  all_goals
+    simp only [partialCmp, beq, left, right, ne_eq, cmp_eq_iff, ge_iff',
+      upper.injEq, lower.injEq, reduceCtorEq, not_false_eq_true, true_and,
+      Option.some.injEq, exists_and_left, exists_eq_left', false_and, exists_false, and_false,
+      Bool.false_eq_true, if_false]
+    try split_ifs <;> simp_all
+
+/-- `partial_cmp = Greater` through the bounds -/
+theorem partialCmp_gt_iff_bounds (a b : Interval α) (ha : a.WF) (hb : b.WF) :
+    partialCmp a b = some .gt ↔ a ≠ b ∧ ∃ l h, a.left = some l ∧ b.right = some h ∧ h ≤ l := by
+  cases a <;> cases b <;> simp only [WF] at ha hb
+  case twoSided.twoSided p q r s =>
+    simp only [partialCmp, beq, left, right, ne_eq, Bool.and_eq_true, cmp_eq_iff, ge_iff',
+      twoSided.injEq, Option.some.injEq, exists_and_left, exists_eq_left']
+    by_cases he : p = r ∧ q = s
+    · simp [he]
+    · rw [if_neg he]
+      by_cases h1 : s ≤ p
+      · simp [h1, he]
+      · rw [if_neg h1]
+        by_cases h2 : q ≤ r <;> simp [h2, he, h1]
+  all_goals
+    simp only [partialCmp, beq, left, right, ne_eq, cmp_eq_iff, ge_iff',
+      upper.injEq, lower.injEq, reduceCtorEq, not_false_eq_true, true_and,
+      Option.some.injEq, exists_and_left, exists_eq_left', false_and, exists_false, and_false,
+      Bool.false_eq_true, if_false]
+    try split_ifs <;> simp_all
+
+end cmp
+
+/-- a missing upper bound: members above every value (order without maximum) -/
+theorem exists_mem_gt_of_right_none [NoMaxOrder α] {A : Interval α} (h : A.right = none) (y : α) :
+    ∃ x ∈ A.den, y < x := by
+  cases A <;> simp only [right, reduceCtorEq] at h
+  rename_i lo
+  obtain ⟨w, hw⟩ := exists_gt (max lo y)
+  exact ⟨w, le_of_lt (lt_of_le_of_lt (le_max_left _ _) hw), lt_of_le_of_lt (le_max_right _ _) hw⟩
+
+/-- a missing lower bound: members below every value (order without minimum) -/
+theorem exists_mem_lt_of_left_none [NoMinOrder α] {A : Interval α} (h : A.left = none) (y : α) :
+    ∃ x ∈ A.den, x < y := by
+  cases A <;> simp only [left, reduceCtorEq] at h
+  rename_i hi
+  obtain ⟨w, hw⟩ := exists_lt (min hi y)
+  exact ⟨w, le_of_lt (lt_of_lt_of_le hw (min_le_left _ _)), lt_of_lt_of_le hw (min_le_right _ _)⟩
+
+/-- every member of `a` is below every member of `b` exactly when the upper bound of `a` is at most
+    the lower bound of `b` (both present) -/
+theorem forall_mem_le_iff_bounds [NoMaxOrder α] [NoMinOrder α] (a b : Interval α) (ha : a.WF)
+    (hb : b.WF) :
+    (∀ x ∈ a.den, ∀ y ∈ b.den, x ≤ y) ↔ ∃ h l, a.right = some h ∧ b.left = some l ∧ h ≤ l := by
+  constructor
+  · intro H
+    obtain ⟨x0, hx0⟩ := den_nonempty ha
+    obtain ⟨y0, hy0⟩ := den_nonempty hb
+    cases har : a.right with
+    | none =>
+      obtain ⟨x, hx, hlt⟩ := exists_mem_gt_of_right_none har y0
+      exact absurd (H x hx y0 hy0) (not_le.mpr hlt)
+    | some h =>
+      cases hbl : b.left with
+      | none =>
+        obtain ⟨y, hy, hlt⟩ := exists_mem_lt_of_left_none hbl x0
+        exact absurd (H x0 hx0 y hy) (not_le.mpr hlt)
+      | some l =>
+        exact ⟨h, l, rfl, rfl, H h (right_mem_den ha har) l (left_mem_den hb hbl)⟩
+  · rintro ⟨h, l, h1, h2, h3⟩ x hx y hy
+    exact (le_right_of_mem h1 hx).trans (h3.trans (left_le_of_mem h2 hy))
+
 end order
 
 section ring
@@ -285,6 +377,294 @@ theorem anti_div_const {k : α} (hk : k ≤ 0) : Antitone (fun x : α => x / k) 
   div_le_div_of_nonpos_of_le hk h
 
 end field
+
+/-! #### attained bounds, interval ⊕ interval -/
+section order2
+variable {α : Type} [LinearOrder α]
+
+theorem bound_appliedBoth_attained {A : Interval α} (hA : A.WF) (f : α → α) {b : α}
+    (h : (A.appliedBoth f).left = some b ∨ (A.appliedBoth f).right = some b) :
+    ∃ x ∈ A.den, f x = b := by
+  rw [left_appliedBoth, right_appliedBoth, Option.map_eq_some_iff, Option.map_eq_some_iff] at h
+  rcases h with ⟨x, hx, rfl⟩ | ⟨x, hx, rfl⟩
+  · exact ⟨x, left_mem_den hA hx, rfl⟩
+  · exact ⟨x, right_mem_den hA hx, rfl⟩
+
+theorem bound_appliedFlipped_attained {A : Interval α} (hA : A.WF) (f : α → α) {b : α}
+    (h : (A.appliedFlipped f).left = some b ∨ (A.appliedFlipped f).right = some b) :
+    ∃ x ∈ A.den, f x = b := by
+  rw [left_appliedFlipped, right_appliedFlipped, Option.map_eq_some_iff,
+    Option.map_eq_some_iff] at h
+  rcases h with ⟨x, hx, rfl⟩ | ⟨x, hx, rfl⟩
+  · exact ⟨x, right_mem_den hA hx, rfl⟩
+  · exact ⟨x, left_mem_den hA hx, rfl⟩
+end order2
+
+section ring2
+variable {α : Type} [CommRing α] [LinearOrder α] [IsStrictOrderedRing α]
+attribute [local instance] NumOps.ofRing
+
+theorem mem_mulScalar (A : Interval α) (k : α) {x : α} (hx : x ∈ A.den) :
+    x * k ∈ (A.mulScalar k).den := by
+  rcases lt_trichotomy k 0 with hk | rfl | hk
+  · rw [mulScalar_of_neg A hk]; exact mem_appliedFlipped_of_anti A _ (anti_mul_const hk.le) hx
+  · rw [mulScalar_zero]; cases A <;> simp
+  · rw [mulScalar_of_pos A hk]; exact mem_appliedBoth_of_mono A _ (mono_mul_const hk.le) hx
+
+theorem den_mulScalar_zero (A : Interval α) : (A.mulScalar 0).den = {0} := by
+  rw [mulScalar_zero]; cases A <;> simp
+
+theorem WF_mulScalar {A : Interval α} (hA : A.WF) (k : α) : (A.mulScalar k).WF := by
+  rcases lt_trichotomy k 0 with hk | rfl | hk
+  · rw [mulScalar_of_neg A hk]; exact WF_appliedFlipped_of_anti _ (anti_mul_const hk.le) hA
+  · rw [mulScalar_zero]; cases A <;> simp
+  · rw [mulScalar_of_pos A hk]; exact WF_appliedBoth_of_mono _ (mono_mul_const hk.le) hA
+
+theorem bound_mulScalar_attained {A : Interval α} (hA : A.WF) (k : α) {b : α}
+    (h : (A.mulScalar k).left = some b ∨ (A.mulScalar k).right = some b) :
+    ∃ x ∈ A.den, x * k = b := by
+  rcases lt_trichotomy k 0 with hk | rfl | hk
+  · rw [mulScalar_of_neg A hk] at h; exact bound_appliedFlipped_attained hA _ h
+  · obtain ⟨x, hx⟩ := den_nonempty hA
+    refine ⟨x, hx, ?_⟩
+    rw [mulScalar_zero] at h
+    cases A <;> simp [left, right] at h <;> (subst h; simp)
+  · rw [mulScalar_of_pos A hk] at h; exact bound_appliedBoth_attained hA _ h
+
+/-- `Add<Interval>`: membership -/
+theorem mem_addI {A B C : Interval α} (h : A.addI B = some C) {x y : α} (hx : x ∈ A.den)
+    (hy : y ∈ B.den) : x + y ∈ C.den := by
+  cases A <;> cases B <;> simp only [addI, Option.some.injEq, reduceCtorEq] at h <;> subst h <;>
+    simp only [den_twoSided, den_upper, den_lower, mem_Icc, mem_Ici, mem_Iic, ofRing_add] at * <;>
+    (try obtain ⟨hx1, hx2⟩ := hx) <;> (try obtain ⟨hy1, hy2⟩ := hy) <;> (try constructor) <;>
+    linarith
+
+/-- `Sub<Interval>`: membership -/
+theorem mem_subI {A B C : Interval α} (h : A.subI B = some C) {x y : α} (hx : x ∈ A.den)
+    (hy : y ∈ B.den) : x - y ∈ C.den := by
+  cases A <;> cases B <;> simp only [subI, Option.some.injEq, reduceCtorEq] at h <;> subst h <;>
+    simp only [den_twoSided, den_upper, den_lower, mem_Icc, mem_Ici, mem_Iic, ofRing_sub] at * <;>
+    (try obtain ⟨hx1, hx2⟩ := hx) <;> (try obtain ⟨hy1, hy2⟩ := hy) <;> (try constructor) <;>
+    linarith
+
+/-- `Add<Interval>`: the denoted set of the result is exactly the set of sums of members -/
+theorem den_addI {A B C : Interval α} (hA : A.WF) (hB : B.WF) (h : A.addI B = some C) :
+    C.den = image2 (· + ·) A.den B.den := by
+  ext z
+  simp only [mem_image2]
+  constructor
+  · intro hz
+    cases A <;> cases B <;> simp only [addI, Option.some.injEq, reduceCtorEq] at h <;> subst h <;>
+      simp only [den_twoSided, den_upper, den_lower, mem_Icc, mem_Ici, mem_Iic, ofRing_add,
+        WF_twoSided] at *
+    case twoSided.twoSided a b x y =>
+      have h1 : max a (z - y) ≤ z - x := max_le (by linarith [hz.1]) (by linarith)
+      have h2 := le_max_right a (z - y)
+      exact ⟨max a (z - y), ⟨le_max_left _ _, max_le hA (by linarith [hz.2])⟩, z - max a (z - y),
+        ⟨by linarith, by linarith⟩, by ring⟩
+    case twoSided.upper a b x => exact ⟨a, ⟨le_rfl, hA⟩, z - a, by linarith, by ring⟩
+    case twoSided.lower a b y => exact ⟨b, ⟨hA, le_rfl⟩, z - b, by linarith, by ring⟩
+    case upper.twoSided a x y => exact ⟨z - x, by linarith, x, ⟨le_rfl, hB⟩, by ring⟩
+    case upper.upper a x => exact ⟨a, le_rfl, z - a, by linarith, by ring⟩
+    case lower.twoSided b x y => exact ⟨z - y, by linarith, y, ⟨hB, le_rfl⟩, by ring⟩
+    case lower.lower b y => exact ⟨b, le_rfl, z - b, by linarith, by ring⟩
+  · rintro ⟨p, hp, q, hq, rfl⟩; exact mem_addI h hp hq
+
+/-- `Sub<Interval>`: the denoted set of the result is exactly the set of differences of members -/
+theorem den_subI {A B C : Interval α} (hA : A.WF) (hB : B.WF) (h : A.subI B = some C) :
+    C.den = image2 (· - ·) A.den B.den := by
+  ext z
+  simp only [mem_image2]
+  constructor
+  · intro hz
+    cases A <;> cases B <;> simp only [subI, Option.some.injEq, reduceCtorEq] at h <;> subst h <;>
+      simp only [den_twoSided, den_upper, den_lower, mem_Icc, mem_Ici, mem_Iic, ofRing_sub,
+        WF_twoSided] at *
+    case twoSided.twoSided a b x y =>
+      -- `z ∈ [a - y, b - x]`: take `p = max a (z + x)`, `q = p - z`
+      have h1 : max a (z + x) ≤ z + y := max_le (by linarith [hz.1]) (by linarith)
+      have h2 := le_max_right a (z + x)
+      exact ⟨max a (z + x), ⟨le_max_left _ _, max_le hA (by linarith [hz.2])⟩, max a (z + x) - z,
+        ⟨by linarith, by linarith⟩, by ring⟩
+    case twoSided.upper a b x => exact ⟨b, ⟨hA, le_rfl⟩, b - z, by linarith, by ring⟩
+    case twoSided.lower a b y => exact ⟨a, ⟨le_rfl, hA⟩, a - z, by linarith, by ring⟩
+    case upper.twoSided a x y => exact ⟨z + y, by linarith, y, ⟨hB, le_rfl⟩, by ring⟩
+    case upper.lower a y => exact ⟨a, le_rfl, a - z, by linarith, by ring⟩
+    case lower.twoSided b x y => exact ⟨z + x, by linarith, x, ⟨le_rfl, hB⟩, by ring⟩
+    case lower.upper b x => exact ⟨b, le_rfl, b - z, by linarith, by ring⟩
+  · rintro ⟨p, hp, q, hq, rfl⟩; exact mem_subI h hp hq
+
+theorem WF_addI {A B C : Interval α} (hA : A.WF) (hB : B.WF) (h : A.addI B = some C) : C.WF := by
+  cases A <;> cases B <;> simp only [addI, Option.some.injEq, reduceCtorEq] at h <;> subst h <;>
+    simp only [WF_twoSided, WF_upper, WF_lower, ofRing_add] at *
+  linarith
+
+theorem WF_subI {A B C : Interval α} (hA : A.WF) (hB : B.WF) (h : A.subI B = some C) : C.WF := by
+  cases A <;> cases B <;> simp only [subI, Option.some.injEq, reduceCtorEq] at h <;> subst h <;>
+    simp only [WF_twoSided, WF_upper, WF_lower, ofRing_sub] at *
+  linarith
+
+/-- the sums of the members of an upward and a downward unbounded interval: every value -/
+theorem image2_add_upper_lower (a b : α) : image2 (· + ·) (Ici a) (Iic b) = univ := by
+  ext z
+  simp only [mem_image2, mem_Ici, mem_Iic, mem_univ, iff_true]
+  exact ⟨max a (z - b), le_max_left _ _, z - max a (z - b),
+    by linarith [le_max_right a (z - b)], by ring⟩
+
+/-- the differences of the members of two upward (two downward) unbounded intervals: every value -/
+theorem image2_sub_upper_upper (a b : α) : image2 (· - ·) (Ici a) (Ici b) = univ := by
+  ext z
+  simp only [mem_image2, mem_Ici, mem_univ, iff_true]
+  exact ⟨max a (z + b), le_max_left _ _, max a (z + b) - z,
+    by linarith [le_max_right a (z + b)], by ring⟩
+
+theorem image2_sub_lower_lower (a b : α) : image2 (· - ·) (Iic a) (Iic b) = univ := by
+  ext z
+  simp only [mem_image2, mem_Iic, mem_univ, iff_true]
+  exact ⟨min a (z + b), min_le_left _ _, min a (z + b) - z,
+    by linarith [min_le_right a (z + b)], by ring⟩
+
+end ring2
+
+/-! #### division by a scalar, `relative_to` (ordered field) -/
+section field2
+variable {α : Type} [Field α] [LinearOrder α] [IsStrictOrderedRing α]
+attribute [local instance] NumOps.ofField
+
+theorem mem_divScalar (A : Interval α) {k : α} (hk : k ≠ 0) {x : α} (hx : x ∈ A.den) :
+    x / k ∈ (A.divScalar k).den := by
+  rcases lt_or_gt_of_ne hk with hk | hk
+  · rw [divScalar_of_neg A hk]; exact mem_appliedFlipped_of_anti A _ (anti_div_const hk.le) hx
+  · rw [divScalar_of_pos A hk]; exact mem_appliedBoth_of_mono A _ (mono_div_const hk.le) hx
+
+theorem den_divScalar (A : Interval α) {k : α} (hk : k ≠ 0) :
+    (A.divScalar k).den = (· / k) '' A.den := by
+  rcases lt_or_gt_of_ne hk with hk' | hk'
+  · rw [divScalar_of_neg A hk']
+    exact den_appliedFlipped_of_anti A _ (· * k) (anti_div_const hk'.le) (anti_mul_const hk'.le)
+      (fun x => mul_div_cancel_right₀ x hk) (fun x => div_mul_cancel₀ x hk)
+  · rw [divScalar_of_pos A hk']
+    exact den_appliedBoth_of_mono A _ (· * k) (mono_div_const hk'.le) (mono_mul_const hk'.le)
+      (fun x => mul_div_cancel_right₀ x hk) (fun x => div_mul_cancel₀ x hk)
+
+theorem den_mulScalar (A : Interval α) {k : α} (hk : k ≠ 0) :
+    (A.mulScalar k).den = (· * k) '' A.den := by
+  rw [mulScalar_ofField]
+  rcases lt_or_gt_of_ne hk with hk' | hk'
+  · rw [mulScalar_of_neg A hk']
+    exact den_appliedFlipped_of_anti A _ (· / k) (anti_mul_const hk'.le) (anti_div_const hk'.le)
+      (fun x => div_mul_cancel₀ x hk) (fun x => mul_div_cancel_right₀ x hk)
+  · rw [mulScalar_of_pos A hk']
+    exact den_appliedBoth_of_mono A _ (· / k) (mono_mul_const hk'.le) (mono_div_const hk'.le)
+      (fun x => div_mul_cancel₀ x hk) (fun x => mul_div_cancel_right₀ x hk)
+
+theorem WF_divScalar {A : Interval α} (hA : A.WF) {k : α} (hk : k ≠ 0) : (A.divScalar k).WF := by
+  rcases lt_or_gt_of_ne hk with hk | hk
+  · rw [divScalar_of_neg A hk]; exact WF_appliedFlipped_of_anti _ (anti_div_const hk.le) hA
+  · rw [divScalar_of_pos A hk]; exact WF_appliedBoth_of_mono _ (mono_div_const hk.le) hA
+
+theorem bound_divScalar_attained {A : Interval α} (hA : A.WF) {k : α} (hk : k ≠ 0) {b : α}
+    (h : (A.divScalar k).left = some b ∨ (A.divScalar k).right = some b) :
+    ∃ x ∈ A.den, x / k = b := by
+  rcases lt_or_gt_of_ne hk with hk | hk
+  · rw [divScalar_of_neg A hk] at h; exact bound_appliedFlipped_attained hA _ h
+  · rw [divScalar_of_pos A hk] at h; exact bound_appliedBoth_attained hA _ h
+
+/-! #### `relative_to` -/
+
+/-- an interval all of whose members are non-negative is bounded below -/
+theorem isLower_eq_false_of_nonneg {A : Interval α} (h : ∀ x ∈ A.den, 0 ≤ x) :
+    A.isLower = false := by
+  cases A with
+  | twoSided lo hi => rfl
+  | upper lo => rfl
+  | lower hi =>
+    exfalso
+    have := h (min hi 0 - 1) (by simp only [den_lower, mem_Iic]; linarith [min_le_left hi 0])
+    linarith [min_le_right hi 0]
+
+/-- the only `None`s (panics) of `relative_to`: a zero bound of the reference, or both intervals
+    unbounded on the same side -/
+theorem relativeTo_eq_none_iff (A R : Interval α) :
+    A.relativeTo R = none ↔ R.left = some 0 ∨ R.right = some 0 ∨
+      (A.isUpper = true ∧ R.isUpper = true) ∨ (A.isLower = true ∧ R.isLower = true) := by
+  cases R <;> cases A <;>
+    simp only [relativeTo, left, right, isUpper, isLower, ofField_eq_iff, ofField_zero,
+      Bool.or_eq_true, Option.some.injEq, reduceCtorEq, Bool.false_eq_true, and_false, and_true,
+      or_false, false_or, and_self, or_true, iff_true] <;>
+    split_ifs <;> simp_all
+
+/-- the two order facts behind `relative_to`: for `0 ≤ x ≤ X` and `0 < r ≤ b`,
+    `(x - b)/b ≤ (X - r)/r`; for `0 ≤ X ≤ y` and `0 < a ≤ r`, `(X - r)/r ≤ (y - a)/a` -/
+theorem rel_lower_le {x X r b : α} (hx : 0 ≤ x) (hxX : x ≤ X) (hr : 0 < r) (hrb : r ≤ b) :
+    (x - b) / b ≤ (X - r) / r := by
+  have hb : 0 < b := lt_of_lt_of_le hr hrb
+  have h1 : x * r ≤ X * b := mul_le_mul hxX hrb hr.le (hx.trans hxX)
+  rw [div_le_div_iff₀ hb hr]
+  linarith
+
+theorem rel_le_upper {X y a r : α} (hX : 0 ≤ X) (hXy : X ≤ y) (ha : 0 < a) (har : a ≤ r) :
+    (X - r) / r ≤ (y - a) / a := by
+  have hr : 0 < r := lt_of_lt_of_le ha har
+  have h1 : X * a ≤ y * r := mul_le_mul hXy har ha.le (hX.trans hXy)
+  rw [div_le_div_iff₀ hr ha]
+  linarith
+
+/-- `relative_to` of a non-negative interval against a strictly positive reference encloses
+    `(X - r)/r` for all members `X`, `r` -/
+theorem mem_relativeTo {A R C : Interval α} (hA0 : ∀ x ∈ A.den, 0 ≤ x) (hR0 : ∀ r ∈ R.den, 0 < r)
+    (h : A.relativeTo R = some C) {X r : α} (hX : X ∈ A.den) (hr : r ∈ R.den) :
+    (X - r) / r ∈ C.den := by
+  have hr0 := hR0 r hr
+  have hX0 := hA0 X hX
+  cases R with
+  | twoSided a b =>
+    have ha : 0 < a := hR0 a ⟨le_rfl, hr.1.trans hr.2⟩
+    have hb : 0 < b := hR0 b ⟨hr.1.trans hr.2, le_rfl⟩
+    cases A with
+    | twoSided x y =>
+      have hx : 0 ≤ x := hA0 x ⟨le_rfl, hX.1.trans hX.2⟩
+      simp [relativeTo, ha.ne', hb.ne'] at h
+      subst h
+      exact ⟨rel_lower_le hx hX.1 hr0 hr.2, rel_le_upper hX0 hX.2 ha hr.1⟩
+    | upper x =>
+      have hx : 0 ≤ x := hA0 x (le_refl x)
+      simp [relativeTo, ha.ne', hb.ne'] at h
+      subst h
+      exact rel_lower_le hx hX hr0 hr.2
+    | lower y =>
+      have := isLower_eq_false_of_nonneg hA0
+      simp [isLower] at this
+  | upper a =>
+    have ha : 0 < a := hR0 a (le_refl a)
+    cases A with
+    | twoSided x y =>
+      simp [relativeTo, ha.ne'] at h
+      subst h
+      exact rel_le_upper hX0 hX.2 ha hr
+    | upper x =>
+      simp [relativeTo, ha.ne'] at h
+    | lower y =>
+      have := isLower_eq_false_of_nonneg hA0
+      simp [isLower] at this
+  | lower b =>
+    have : 0 < min b 0 - 1 :=
+      hR0 _ (by simp only [den_lower, mem_Iic]; linarith [min_le_left b 0])
+    linarith [min_le_right b 0]
+
+/-- … and every finite bound of the result is `(X - r)/r` for some members `X`, `r` -/
+theorem bound_relativeTo_attained {A R C : Interval α} (hA : A.WF) (hR : R.WF)
+    (h : A.relativeTo R = some C) {β : α} (hβ : C.left = some β ∨ C.right = some β) :
+    ∃ X ∈ A.den, ∃ r ∈ R.den, (X - r) / r = β := by
+  cases R <;> cases A <;> simp only [relativeTo] at h <;> split_ifs at h <;>
+    simp only [Option.some.injEq] at h <;> subst h <;>
+    (try simp only [WF_twoSided] at hA hR) <;>
+    rcases hβ with hβ | hβ <;>
+    simp only [left, right, Option.some.injEq, reduceCtorEq, ofField_sub, ofField_div] at hβ <;>
+    subst hβ <;>
+    refine ⟨_, ?_, _, ?_, rfl⟩ <;> simp [hA, hR]
+
+end field2
 
 end Interval
 end StatsCI
